@@ -163,13 +163,25 @@ func genCase(t *rapid.T, nodeFailure bool) Case {
 			c.Steps = append(c.Steps, sim.Step{Op: "unsub", C: ci, Filters: []string{rapid.SampledFrom(filters).Draw(t, "filter")}})
 		case x < 11:
 			payload++
-			st := sim.Step{Op: "pub", C: ci, Topic: rapid.SampledFrom(topics).Draw(t, "topic"), Payload: fmt.Sprintf("p%d", payload), PQoS: byte(rapid.IntRange(0, 1).Draw(t, "pqos")), Retain: rapid.IntRange(0, 2).Draw(t, "retain") == 0}
+			st := sim.Step{Op: "pub", C: ci, Topic: rapid.SampledFrom(topics).Draw(t, "topic"), Payload: fmt.Sprintf("p%d", payload), PQoS: byte(rapid.IntRange(0, 2).Draw(t, "pqos")), Retain: rapid.IntRange(0, 2).Draw(t, "retain") == 0}
 			if st.Retain && rapid.IntRange(0, 4).Draw(t, "clear") == 0 {
 				st.Payload = ""
 			}
 			c.Steps = append(c.Steps, st)
-		case x < 12:
-			c.Steps = append(c.Steps, sim.Step{Op: "ping", C: ci})
+		case x < 13:
+			// QoS 2 exchanges of the clients' own publishes, held open across other steps, with
+			// packet identifiers from a tiny range: the same identifier is in use by clients with
+			// the same client id in different tenants at the same time
+			pid := uint16(rapid.IntRange(1, 2).Draw(t, "pid"))
+			switch rapid.IntRange(0, 3).Draw(t, "q2") {
+			case 0:
+				c.Steps = append(c.Steps, sim.Step{Op: "ping", C: ci})
+			case 1:
+				c.Steps = append(c.Steps, sim.Step{Op: "pub2rel", C: ci, PID: pid})
+			default:
+				payload++
+				c.Steps = append(c.Steps, sim.Step{Op: "pub2hold", C: ci, PID: pid, Topic: rapid.SampledFrom(topics).Draw(t, "topic"), Payload: fmt.Sprintf("p%d", payload), Retain: rapid.IntRange(0, 3).Draw(t, "retain2") == 0})
+			}
 		case x < 14:
 			c.Steps = append(c.Steps, sim.Step{Op: "close", C: ci})
 		case x < 15:
